@@ -28,8 +28,9 @@ TECHNIQUE = ("reader/writer agreement: the serializer's escaping sets, quoting c
 CLAIM = ("For each lexical context the serializer writes into, the characters that are special to the tokenizer in that "
          "context (computed from the extracted tokenizer model, not assumed) are escaped, quoted or reported before emission "
          "on every path; the raw-text element set is compared with the parser's content-model switches; every error check "
-         "dominates the emission it guards.")
-NOT_DECIDED = ("script-data double-escape interactions ('<!--<script>' inside script text), comment edge cases relative to "
+         "dominates the emission it guards."
+         " The text arm is *evaluated* for every data-state delimiter alone, at either end of a token and doubled; U+000D must come out as a reference (known finding: it does not, the suite pins it); text starting with LF directly after an HTML pre / textarea / listing start tag gets the extra LF and the flag lives for one token; the doctype arm's output is read back for both quote_char settings; the trailing solidus is for HTML void elements only; script text that enters the double-escaped state is not reported (known finding).")
+NOT_DECIDED = ("comment edge cases relative to "
                "producible data (leading '>', trailing '-'), element/attribute names containing delimiter characters.")
 MODULES = ["serializer.py", "constants.py", "_tokenizer.py", "html5parser.py", "treewalkers/base.py"]
 REL = "serializer.py"
